@@ -3,6 +3,7 @@ package all
 
 import (
 	_ "verif/props/c01"
+	_ "verif/props/c02"
 	_ "verif/props/c07"
 	_ "verif/props/smoke"
 )
